@@ -157,7 +157,23 @@ fn cmd_pps(args: &[&str], out: &mut Vec<String>) {
 
 fn cmd_slice(args: &[&str], out: &mut Vec<String>) {
     let ctx = build_ctx(args[0]);
-    let src = Src::parse(args[1]);
+    slice_in_ctx(&ctx, args[1], out);
+}
+
+/// several slice headers parsed one after the other against ONE Context object (a parse must not leave anything behind
+/// in the context that changes a later parse); answers separated by ";;"
+fn cmd_slices(args: &[&str], out: &mut Vec<String>) {
+    let ctx = build_ctx(args[0]);
+    for (k, src) in args[1..].iter().enumerate() {
+        if k > 0 {
+            out.push(";;".into());
+        }
+        slice_in_ctx(&ctx, src, out);
+    }
+}
+
+fn slice_in_ctx(ctx: &Context, src: &str, out: &mut Vec<String>) {
+    let src = Src::parse(src);
     src.with_nal(|nal| {
         let hdr = match nal.header() {
             Ok(h) => h,
@@ -167,7 +183,7 @@ fn cmd_slice(args: &[&str], out: &mut Vec<String>) {
             }
         };
         let mut r = nal.rbsp_bits();
-        match SliceHeader::from_bits(&ctx, &mut r, hdr) {
+        match SliceHeader::from_bits(ctx, &mut r, hdr) {
             Ok((h, sps, pps)) => {
                 out.push(format!("ok:{}", canon(&h)));
                 let same_s = ctx.sps_by_id(sps.seq_parameter_set_id).map(|x| std::ptr::eq(x, sps)).unwrap_or(false);
@@ -472,6 +488,7 @@ pub fn dispatch(cmd: &str, args: &[&str], out: &mut Vec<String>) {
         "sei" => cmd_sei(args, out),
         "bp" => cmd_bp(args, out),
         "pt" => cmd_pt(args, out),
+        "slices" => cmd_slices(args, out),
         "seibig" => cmd_seibig(args, out),
         "t35" => cmd_t35(args, out),
         "avcc" => cmd_avcc(args, out),
@@ -483,6 +500,7 @@ pub fn dispatch(cmd: &str, args: &[&str], out: &mut Vec<String>) {
 
 /// Complete input/output graphs of the finite-domain functions (DESIGN 2.4).
 pub fn tables() {
+    let mut first_sweep: std::collections::HashMap<(u8, u8), String> = std::collections::HashMap::new();
     for b in 0..=255u8 {
         match NalHeader::new(b) {
             Ok(h) => println!("hdr {} ok {} {} {}", b, h.nal_ref_idc(), gs(|| h.nal_unit_type().id().to_string()), u8::from(h)),
@@ -527,6 +545,30 @@ pub fn tables() {
         for l in 0..=255u8 {
             let lv = Level::from_constraint_flags_and_level_idc(c, l);
             println!("lvl {} {} {} {}", f, l, lv.level_idc(), canon(&lv));
+            first_sweep.insert((f, l), canon(&lv));
+        }
+    }
+    // the same conversions once more in another order (level byte outermost, flags in Gray-code order, each followed by
+    // the pair that differs in flag 3 only): a pure function gives the answers of the first sweep; a row is printed for
+    // every answer that differs from the first sweep's
+    for l in 0..=255u8 {
+        for k in 0..=255u16 {
+            let f = (k ^ (k >> 1)) as u8;
+            for ff in [f, f ^ 0x10, f] {
+                let lv = Level::from_constraint_flags_and_level_idc(ConstraintFlags::from(ff), l);
+                let first = first_sweep.get(&(ff, l)).cloned().unwrap_or_default();
+                if canon(&lv) != first {
+                    println!("lvlx {} {} {} {}", ff, l, canon(&lv), first);
+                }
+            }
+        }
+    }
+    for b in 0..=255u8 {
+        let p1 = canon(&Profile::from_profile_idc(ProfileIdc::from(b)));
+        let _ = Profile::from_profile_idc(ProfileIdc::from(b ^ 1));
+        let p2 = canon(&Profile::from_profile_idc(ProfileIdc::from(b)));
+        if p1 != p2 {
+            println!("profx {} {} {}", b, p1, p2);
         }
     }
     let mut probes: Vec<u32> = (0..=300).collect();
